@@ -38,6 +38,7 @@ type RelayScript struct {
 	Scopes []string `json:"scopes,omitempty"` // "type:resource:action"
 	Nested bool     `json:"nested,omitempty"` // the view is built as a view of a view
 	Listed []string `json:"listed,omitempty"` // backend's repository listing
+	Again  int      `json:"again,omitempty"`  // the same call is made this many more times with the same context
 }
 
 var methods = []string{"GetBlob", "GetBlobRange", "GetManifest", "GetTag", "ResolveBlob", "ResolveManifest", "ResolveTag",
@@ -86,48 +87,60 @@ func runRelay(s RelayScript, v *vt.V) {
 	}
 	dg := digest.FromBytes([]byte("x"))
 	var gotList []string
-	switch s.Method {
-	case "GetBlob":
-		closeR(sub.GetBlob(ctx, s.Repo, dg))
-	case "GetBlobRange":
-		closeR(sub.GetBlobRange(ctx, s.Repo, dg, 1, 3))
-	case "GetManifest":
-		closeR(sub.GetManifest(ctx, s.Repo, dg))
-	case "GetTag":
-		closeR(sub.GetTag(ctx, s.Repo, "t"))
-	case "ResolveBlob":
-		sub.ResolveBlob(ctx, s.Repo, dg)
-	case "ResolveManifest":
-		sub.ResolveManifest(ctx, s.Repo, dg)
-	case "ResolveTag":
-		sub.ResolveTag(ctx, s.Repo, "t")
-	case "PushBlob":
-		sub.PushBlob(ctx, s.Repo, ociregistry.Descriptor{Digest: dg, Size: 1, MediaType: "m/t"}, bytes.NewReader([]byte("x")))
-	case "PushBlobChunked":
-		if w, err := sub.PushBlobChunked(ctx, s.Repo, 0); err == nil {
-			w.Close()
+	var callerScope ociauth.Scope
+	if len(rss) > 0 || unlimited {
+		callerScope = ociauth.ScopeFromContext(ctx)
+	}
+	callerBefore := scopeText(callerScope)
+	bad := false
+	invoke := func() {
+		switch s.Method {
+		case "GetBlob":
+			closeR(sub.GetBlob(ctx, s.Repo, dg))
+		case "GetBlobRange":
+			closeR(sub.GetBlobRange(ctx, s.Repo, dg, 1, 3))
+		case "GetManifest":
+			closeR(sub.GetManifest(ctx, s.Repo, dg))
+		case "GetTag":
+			closeR(sub.GetTag(ctx, s.Repo, "t"))
+		case "ResolveBlob":
+			sub.ResolveBlob(ctx, s.Repo, dg)
+		case "ResolveManifest":
+			sub.ResolveManifest(ctx, s.Repo, dg)
+		case "ResolveTag":
+			sub.ResolveTag(ctx, s.Repo, "t")
+		case "PushBlob":
+			sub.PushBlob(ctx, s.Repo, ociregistry.Descriptor{Digest: dg, Size: 1, MediaType: "m/t"}, bytes.NewReader([]byte("x")))
+		case "PushBlobChunked":
+			if w, err := sub.PushBlobChunked(ctx, s.Repo, 0); err == nil {
+				w.Close()
+			}
+		case "PushBlobChunkedResume":
+			if w, err := sub.PushBlobChunkedResume(ctx, s.Repo, "id1", 0, 0); err == nil {
+				w.Close()
+			}
+		case "MountBlob":
+			sub.MountBlob(ctx, s.From, s.Repo, dg)
+		case "PushManifest":
+			sub.PushManifest(ctx, s.Repo, "t", []byte("{}"), "m/t")
+		case "DeleteBlob":
+			sub.DeleteBlob(ctx, s.Repo, dg)
+		case "DeleteManifest":
+			sub.DeleteManifest(ctx, s.Repo, dg)
+		case "DeleteTag":
+			sub.DeleteTag(ctx, s.Repo, "t")
+		case "Repositories":
+			gotList, _ = ociregistry.All(sub.Repositories(ctx, s.Start))
+		case "Tags":
+			ociregistry.All(sub.Tags(ctx, s.Repo, s.Start))
+		case "Referrers":
+			ociregistry.All(sub.Referrers(ctx, s.Repo, dg, ""))
+		default:
+			bad = true
 		}
-	case "PushBlobChunkedResume":
-		if w, err := sub.PushBlobChunkedResume(ctx, s.Repo, "id1", 0, 0); err == nil {
-			w.Close()
-		}
-	case "MountBlob":
-		sub.MountBlob(ctx, s.From, s.Repo, dg)
-	case "PushManifest":
-		sub.PushManifest(ctx, s.Repo, "t", []byte("{}"), "m/t")
-	case "DeleteBlob":
-		sub.DeleteBlob(ctx, s.Repo, dg)
-	case "DeleteManifest":
-		sub.DeleteManifest(ctx, s.Repo, dg)
-	case "DeleteTag":
-		sub.DeleteTag(ctx, s.Repo, "t")
-	case "Repositories":
-		gotList, _ = ociregistry.All(sub.Repositories(ctx, s.Start))
-	case "Tags":
-		ociregistry.All(sub.Tags(ctx, s.Repo, s.Start))
-	case "Referrers":
-		ociregistry.All(sub.Referrers(ctx, s.Repo, dg, ""))
-	default:
+	}
+	invoke()
+	if bad {
 		v.Failf("harness", "unknown method")
 		return
 	}
@@ -214,7 +227,46 @@ func runRelay(s RelayScript, v *vt.V) {
 	}
 	if !got.Equal(want) || got.IsUnlimited() != want.IsUnlimited() {
 		v.Failf("wrong-scope", "%s: context scope at the underlying registry is %q, want %q", desc, got.Canonical().String(), want.Canonical().String())
+		return
 	}
+	// the view is a function of its arguments: the caller's own scope value is what it was, and making
+	// the same call again with the same context puts the same call to the underlying registry
+	if now := scopeText(callerScope); now != callerBefore {
+		v.Failf("caller-scope-changed", "%s: the scope in the caller's context was %s before the call and is %s after it", desc, callerBefore, now)
+		return
+	}
+	for i := 0; i < s.Again; i++ {
+		invoke()
+		calls := r.Calls()
+		if len(calls) != i+2 {
+			v.Failf("wrong-call", "%s: repeat %d: the underlying registry saw %d calls", desc, i+1, len(calls))
+			return
+		}
+		ci := calls[i+1]
+		if ci.Method != c.Method || ci.Repo != c.Repo || ci.FromRepo != c.FromRepo || ci.StartAfter != c.StartAfter {
+			v.Failf("not-repeatable", "%s: repeat %d reached the underlying registry as %s(repo=%q from=%q start=%q); the first time it was %s(repo=%q from=%q start=%q)", desc, i+1, ci.Method, ci.Repo, ci.FromRepo, ci.StartAfter, c.Method, c.Repo, c.FromRepo, c.StartAfter)
+			return
+		}
+		if g := ociauth.ScopeFromContext(ci.Ctx); !g.Equal(want) || g.IsUnlimited() != want.IsUnlimited() {
+			v.Failf("wrong-scope", "%s: repeat %d with the same context: scope at the underlying registry is %q, want %q", desc, i+1, g.Canonical().String(), want.Canonical().String())
+			return
+		}
+		if now := scopeText(callerScope); now != callerBefore {
+			v.Failf("caller-scope-changed", "%s: the scope in the caller's context was %s and is %s after %d calls", desc, callerBefore, now, i+2)
+			return
+		}
+	}
+}
+
+// scopeText lists the members of a scope one by one (not through its cached string form).
+func scopeText(s ociauth.Scope) string {
+	var b strings.Builder
+	fmt.Fprintf(&b, "[unlimited=%v", s.IsUnlimited())
+	s.Iter()(func(rs ociauth.ResourceScope) bool {
+		fmt.Fprintf(&b, " %s:%s:%s", rs.ResourceType, rs.Resource, rs.Action)
+		return true
+	})
+	return b.String() + "]"
 }
 
 func closeR(r ociregistry.BlobReader, err error) {
@@ -251,6 +303,7 @@ func genRelay(t *rapid.T) RelayScript {
 			"repository:" + s.Prefix + ":pull", "repository:" + s.Prefix + "/x:pull", "repository:" + s.Prefix + "/" + s.Prefix + ":push", "repository:" + s.Prefix + "ey:pull", "other:" + s.Prefix + "/x:pull"}).Draw(t, "scope"))
 	}
 	s.Nested = rapid.IntRange(0, 3).Draw(t, "nested") == 0
+	s.Again = rapid.SampledFrom([]int{0, 0, 1, 2}).Draw(t, "again")
 	if s.Method == "Repositories" {
 		p := s.Prefix
 		pool := []string{p, p + "/a", p + "/a/b", p + "/z", p + "ey/x", p + "-tools", p + ".d/x", "other", "a", p + "0", "zz/" + p + "/a"}
@@ -264,7 +317,7 @@ func genRelay(t *rapid.T) RelayScript {
 var propRelay = &vt.Prop[RelayScript]{
 	ID:   "C13",
 	Name: "SubRelay",
-	Rule: "Sub(recorder, prefix) with prefixes of 1-3 elements (incl. routing words), a quarter of them built as a view of a view; each of the 18 methods; caller repository names from the valid grammar and from hostile generators (empty, '.', '..', '../other', 'x/../../other', leading/trailing/double slashes, upper case, NUL, UTF-8, names equal to or starting with the prefix); 0-3 context scopes (repository pull/push/unknown action, registry:catalog:*, other types, empty repository, opaque, repositories whose own name equals or starts with the prefix, the unlimited scope); oracle = exactly one underlying call; a well-formed name n arrives as prefix/n; whatever arrives for a malformed name is empty or literally below prefix/ and does not resolve (dot segments) outside it; the context scope at the underlying registry equals the caller's with repository resources prefixed and nothing else changed; Repositories shows exactly the stripped names under prefix/; non-trivial = hostile name, start point, or name sharing the prefix text; distinct = (prefix, method, names, start)",
+	Rule: "Sub(recorder, prefix) with prefixes of 1-3 elements (incl. routing words), a quarter of them built as a view of a view; each of the 18 methods; caller repository names from the valid grammar and from hostile generators (empty, '.', '..', '../other', 'x/../../other', leading/trailing/double slashes, upper case, NUL, UTF-8, names equal to or starting with the prefix); 0-3 context scopes (repository pull/push/unknown action, registry:catalog:*, other types, empty repository, opaque, repositories whose own name equals or starts with the prefix, the unlimited scope); oracle = exactly one underlying call; a well-formed name n arrives as prefix/n; whatever arrives for a malformed name is empty or literally below prefix/ and does not resolve (dot segments) outside it; the context scope at the underlying registry equals the caller's with repository resources prefixed and nothing else changed; Repositories shows exactly the stripped names under prefix/; half of the calls are then repeated once or twice with the same context: the same call with the same scope reaches the underlying registry each time and the scope value in the caller's context is member for member what it was; non-trivial = hostile name, start point, or name sharing the prefix text; distinct = (prefix, method, names, start)",
 	Gen:  genRelay,
 	Run:  runRelay,
 }
